@@ -874,11 +874,11 @@ class WcSplit(Generic[AnyStr]):
                     except StopIteration:
                         pass
                 elif c == '[':
-                    index = i.index
+                    seq_index = i.index
                     try:
                         self._sequence(i)
                     except StopIteration:
-                        i.rewind(i.index - index)
+                        i.rewind(i.index - seq_index)
 
         except StopIteration:
             success = False
